@@ -8,6 +8,7 @@ MLTuckerOps.lean, MLSum.lean.  `MLK.kresGet/kresShape`, `MLK.tresGet/tresShape`,
 `MLK.partResGet`, `MLK.sumResGet` are the one denotation of a scalar-or-object result.
 -/
 import PyttbModel.Lemmas.MLSum
+import PyttbModel.Lemmas.MLSumKruskal
 namespace Pyttb
 
 variable {α : Type}
@@ -200,13 +201,13 @@ theorem C02_innerprod_tucker_tucker [CommSemiring α] (T O : Ttensor α) (hT : M
     (T.shape ≠ O.shape → T.innerprodT O = .error .reject) :=
   ⟨MLK.tucker_innerprodT_spec T O hT hO hN, MLK.tucker_innerprodT_rejects T O⟩
 
-/-- `ttensor.innerprod(sptensor)` on the `full()` side of its size switch (tensor smaller than its
-core).  Missing: the other side, which goes through the sparse `ttm` kernel. -/
-theorem C02_innerprod_tucker_sparse_partial [CommSemiring α] [DecidableEq α] (T : Ttensor α) (hT : ML.TuckerWF T)
-    (hN : 1 ≤ T.factors.length) (S : Sparse α) (hS : S.WF) (hs : T.shape = S.shape)
-    (hb : numel T.shape < numel T.core.shape) :
+/-- `ttensor.innerprod(sptensor)` on both sides of its size switch: through `full()` when the tensor
+is smaller than its core, otherwise through the sparse kernel `sptensor.ttm(factors, transpose=True)`
+against the core. -/
+theorem C02_innerprod_tucker_sparse [CommSemiring α] [DecidableEq α] (T : Ttensor α) (hT : ML.TuckerWF T)
+    (hN : 1 ≤ T.factors.length) (S : Sparse α) (hS : S.WF) (hs : T.shape = S.shape) :
     T.innerprodSparse S = .ok (Spec.inner T.den S.den) :=
-  MLK.tucker_innerprodSparse_full T hT hN S hS hs hb
+  MLK.tucker_innerprodSparse_spec T hT hN S hS hs
 
 /-- The square of `ttensor.norm()` on both sides of its size switch (Gram matrices `UₙᵀUₙ` applied to
 the core when the tensor is larger than its core, `full()` otherwise) is `Σ_k ⟦T⟧[k]²`. -/
@@ -216,11 +217,11 @@ theorem C02_norm_tucker [CommSemiring α] (T : Ttensor α) (hT : ML.TuckerWF T) 
 /-! ### any two representations -/
 
 /-- `x.innerprod(y)` for every pair of representations (dense, sparse, Kruskal, Tucker; 16 dispatch
-cases) is `Σ_k ⟦x⟧[k]·⟦y⟧[k]`; `MLK.InnerOk` excludes only Tucker · sparse on the sparse-`ttm` side. -/
+cases, every data-dependent branch of each) is `Σ_k ⟦x⟧[k]·⟦y⟧[k]`. -/
 theorem C02_innerprod_parts [CommSemiring α] [DecidableEq α] (x y : ML.Part α) (hx : ML.PartWF x) (hy : ML.PartWF y)
-    (hs : x.shape = y.shape) (hok : MLK.InnerOk x y) :
+    (hs : x.shape = y.shape) :
     x.innerprod y = .ok (Spec.inner (MLK.partDen x) (MLK.partDen y)) :=
-  MLK.part_innerprod_spec x y hx hy hs hok
+  MLK.part_innerprod_spec x y hx hy hs
 
 /-- `ttv` of an object of any representation, `dims` in any order: a scalar exactly when every mode
 is selected, and the result denotes `Spec.ttv` of what the object denotes. -/
@@ -291,13 +292,38 @@ theorem C02_mttkrp_sum [CommSemiring α] [DecidableEq α] (p0 : ML.Part α) (ps 
           (fun _ => 1) n i r :=
   MLK.sum_mttkrp_full p0 ps hwf hpp hsh U n R hN2 hn hlen hrows hcols hpos
 
+/-- Every representation's `mttkrp` consumes a Kruskal operand through `get_mttkrp_factors` only:
+the call with the Kruskal operand IS the call with the factor list that has the weights absorbed
+(into mode 1 when `n = 0`, else into mode 0). -/
+theorem C02_mttkrp_parts_kruskal_eq_list [Add α] [Mul α] [Zero α] [BEq α] (p : ML.Part α) (K : Ktensor α) (n : Nat)
+    (hlen : K.factors.length = p.shape.length) (hN2 : 2 ≤ p.shape.length) :
+    p.mttkrp (.kruskal K) n = p.mttkrp (.list (absorbWeights K.weights K.factors n)) n :=
+  MLK.part_mttkrp_kruskal_eq_list p K n hlen hN2
+
+/-- `sumtensor.mttkrp(K, n)` with a Kruskal operand at full strength (parts of any representations,
+weights non-unit / negative / zero / mixed): column `r` of the sum of the parts' matrices is `λ_r` times
+the matricized product of the cell-wise sum. -/
+theorem C02_mttkrp_sum_kruskal [CommSemiring α] [DecidableEq α] (p0 : ML.Part α) (ps : List (ML.Part α))
+    (hwf : ∀ p ∈ p0 :: ps, ML.PartWF p) (hpp : ∀ p ∈ p0 :: ps, MLK.PartPos p) (hsh : ∀ p ∈ ps, p.shape = p0.shape)
+    (K : Ktensor α) (n R : Nat)
+    (hN2 : 2 ≤ p0.shape.length) (hn : n < p0.shape.length) (hlen : K.factors.length = p0.shape.length)
+    (hw : K.weights.length = R)
+    (hrows : ∀ m, m < p0.shape.length → m ≠ n → (K.factors.getD m []).length = p0.shape.getD m 0)
+    (hcols : ∀ m, m < p0.shape.length → m ≠ n → ∀ row ∈ K.factors.getD m [], row.length = R)
+    (hpos : ∀ e ∈ p0.shape, 0 < e) :
+    ∃ W, ML.Sumtensor.mttkrp (p0 :: ps) (.kruskal K) n = .ok W ∧ MLK.MatShape W (p0.shape.getD n 0) R ∧
+      ∀ i r, i < p0.shape.getD n 0 → r < R →
+        W.get i r = Spec.mttkrp (MLK.sumDen p0.shape (p0 :: ps)) (fun m x c => (K.factors.getD m []).get x c)
+          (fun r => K.weights.getD r 0) n i r :=
+  MLK.sum_mttkrp_kruskal p0 ps hwf hpp hsh K n R hN2 hn hlen hw hrows hcols hpos
+
 /-- `sumtensor.innerprod(other)` for well-formed parts of any representations and one shape: the sum
 of the parts' inner products is `Σ_k (Σ_p ⟦p⟧[k])·⟦other⟧[k]`. -/
 theorem C02_innerprod_sum [CommSemiring α] [DecidableEq α] (p0 : ML.Part α) (ps : List (ML.Part α)) (o : ML.Part α)
     (hwf : ∀ p ∈ p0 :: ps, ML.PartWF p) (ho : ML.PartWF o) (hsh : ∀ p ∈ ps, p.shape = p0.shape)
-    (hso : p0.shape = o.shape) (hok : ∀ p ∈ p0 :: ps, MLK.InnerOk p o) :
+    (hso : p0.shape = o.shape) :
     ML.Sumtensor.innerprod (p0 :: ps) o = .ok (Spec.inner (MLK.sumDen p0.shape (p0 :: ps)) (MLK.partDen o)) :=
-  MLK.sum_innerprod_full p0 ps o hwf ho hsh hso hok
+  MLK.sum_innerprod_full p0 ps o hwf ho hsh hso
 
 /-- A sum tensor without parts, or with a part whose inner product is rejected, is rejected. -/
 theorem C02_innerprod_sum_rejects [Add α] [Mul α] [Zero α] [BEq α] (S : ML.Sumtensor α) (o : ML.Part α) :
